@@ -82,19 +82,26 @@ def run_e1(run, tier):
 
 def known_recursion(run):
     """a type recursive through an array or map: gen_data always builds 10 elements, so generation does not terminate"""
+    import subprocess
     import sys
-    import fastavro.utils as U
-    schema = {"type": "record", "name": "Tree", "fields": [{"name": "kids", "type": {"type": "array", "items": "Tree"}}]}
-    lim = sys.getrecursionlimit()
+    import os
+    # in a child process with an address-space limit and a time limit: on a changed tree the generator may neither
+    # terminate nor hit the recursion limit (a depth cut with 10 elements per level grows without bound)
+    probe = ("import sys, os, resource\nresource.setrlimit(resource.RLIMIT_AS, (3 << 30, 3 << 30))\n"
+             "sys.path[:0]=[os.environ.get('VF_REPO','/repo')]\nsys.setrecursionlimit(400)\nfrom fastavro.utils import generate_one\n"
+             "s={'type':'record','name':'Tree','fields':[{'name':'kids','type':{'type':'array','items':'Tree'}}]}\n"
+             "try:\n    generate_one(s)\nexcept RecursionError:\n    print('RECURSION')\n    sys.exit(0)\n"
+             "except MemoryError:\n    print('MEMORY')\n    sys.exit(0)\nprint('TERMINATES')\n")
     try:
-        sys.setrecursionlimit(400)
-        try:
-            U.generate_one(schema)
-            ok = True
-        except RecursionError:
-            ok = False
-    finally:
-        sys.setrecursionlimit(lim)
+        r = subprocess.run([sys.executable, "-c", probe], capture_output=True, text=True, timeout=120,
+                           env=dict(os.environ, PYTHONPATH=""))
+        out = r.stdout.strip()
+    except subprocess.TimeoutExpired:
+        out = "TIMEOUT"
+    if out not in ("RECURSION", "TERMINATES"):
+        run.obligation("recursion.array", "inconclusive", f"generate_one on Tree{{kids: array<Tree>}}: {out or 'no answer'} within 120 s / 3 GB", paths=1)
+        return
+    ok = out == "TERMINATES"
     if ok:
         run.obligation("recursion.array", "discharged", "generate_one terminates on Tree{kids: array<Tree>}", paths=1)
         return
